@@ -71,6 +71,10 @@ class VLoop(base_events.BaseEventLoop):
                 break
             heapq.heappop(sched)
             handle._scheduled = False
+            if handle._when > self._vtime:
+                # like asyncio, timers fire up to one clock resolution early; real time would pass that instant at once,
+                # frozen virtual time has to be moved there or code that re-arms "not yet due" timers spins for ever
+                self._vtime = handle._when
             self._ready.append(handle)
 
     def iteration(self):
